@@ -5,6 +5,7 @@ import (
 	"fmt"
 	"os"
 	"path/filepath"
+	"regexp"
 	"runtime"
 	"runtime/debug"
 	"runtime/metrics"
@@ -200,7 +201,8 @@ finished:
 			frame = repoFrame
 		}
 		msg := strings.TrimPrefix(key, "panic:"+lib.InnermostFrame(pstack)+":")
-		// one key per call site and kind: drop the operands of bounds errors
+		// one key per call site and kind: drop quoted operands and the operands of bounds errors
+		msg = quotedRe.ReplaceAllString(msg, "'?'")
 		for _, cut := range []string{"slice bounds out of range", "index out of range"} {
 			if i := strings.Index(msg, cut); i >= 0 {
 				msg = msg[:i+len(cut)]
@@ -334,6 +336,8 @@ func callGoroutineState(dump string) string {
 	}
 	return "unknown"
 }
+
+var quotedRe = regexp.MustCompile(`'[^']*'`)
 
 var allocSample = []metrics.Sample{{Name: "/gc/heap/allocs:bytes"}}
 
